@@ -799,7 +799,7 @@ def p_mp_createClass(p):
 
         # Attempt to modify class since it exists.
         try:
-            p.parser.handle.ModifyClass(cc, ns)
+            p.parser.handle.ModifyClass(cc, namespace=ns)
 
         # Handle exceptions from ModifyClass.
         except CIMError as ce2:
